@@ -1408,7 +1408,19 @@ impl RepDefUnraveler {
     pub fn unravel_validity(&mut self, validity: &mut BooleanBufferBuilder) {
         if self.def_meaning[self.current_layer] == DefinitionInterpretation::AllValidItem {
             self.current_layer += 1;
-            validity.append_n(self.num_items as usize, true);
+            // The number of entries at this layer.  This is only the number of leaf items if
+            // there is no list below this layer.
+            let num_entries = if let Some(def_levels) = &self.def_levels {
+                def_levels
+                    .iter()
+                    .filter(|&&level| self.levels_to_rep[level as usize] <= self.current_rep_cmp)
+                    .count()
+            } else if let Some(rep_levels) = &self.rep_levels {
+                rep_levels.len()
+            } else {
+                self.num_items as usize
+            };
+            validity.append_n(num_entries, true);
             return;
         }
 
